@@ -221,4 +221,8 @@ func init() {
 
 	mut("C07", "Valid is merged with AND while the steps are merged with OR", "core/pkg/distribution/framer/iterator/synchronizer.go",
 		"	if res.Ack {\n		s.cycle.res.Ack = true\n	}", "	if res.Command == CommandValid {\n		s.cycle.res.Ack = s.cycle.res.Ack && res.Ack\n	} else if res.Ack {\n		s.cycle.res.Ack = true\n	}", "C07.R2.sync")
+
+	// ---------------- fresh decode targets
+	mut("C17", "one decode target is reused for a batch of observed changes", "x/go/gorp/observe.go",
+		"		for _, kvChange := range changes {\n			var op change.Change[K, E]\n", "		var op change.Change[K, E]\n		for _, kvChange := range changes {\n", "C17.R8.fresh")
 }
